@@ -187,6 +187,14 @@ def main():
     with open(os.path.join(ds, w["name"] + ".json"), "w") as fh:
         json.dump(w, fh, indent=1)
     print(w["name"])
+    dp_ = os.path.join(env.VERIF, "corpus", "C02", "ppdeps")
+    os.makedirs(dp_, exist_ok=True)
+    import random
+    dep_req, req, feats = G.ppdeps_api(random.Random(7))
+    with open(os.path.join(dp_, "prefix-sibling-of-listed-dep.json"), "w") as fh:
+        json.dump({"name": "prefix-sibling-of-listed-dep", "features": feats, "dep_request_b64": apigen.req_b64(dep_req),
+                   "request_b64": apigen.req_b64(req)}, fh, indent=1)
+    print("prefix-sibling-of-listed-dep", feats)
     d = os.path.join(env.VERIF, "corpus", "C02")
     os.makedirs(d, exist_ok=True)
     for name, files, togen, feats in [kitchen_sink(), pb2_clash(False), pb2_clash(True), pb2_clash(False, "fab.baz"),
